@@ -49,6 +49,12 @@ type Config struct {
 	// ExtraAccounts are further genesis accounts (address string -> balance),
 	// e.g. the address a harness system SCORE will be installed at.
 	ExtraAccounts map[string]*big.Int
+	// TxEndHook, if set, is called from Platform.OnTransactionEnd (after a
+	// transaction was executed, before its result is committed) with the
+	// transaction's index and id; a returned error is handed to the executor
+	// (errors.ExecutionFailError makes it reset and re-run the transaction).
+	// Used for schedule perturbation and executor-failure injection.
+	TxEndHook func(index int32, txID []byte) error
 	// Setup, if set, is executed as block 1 by a harness transaction (for
 	// installing harness system SCOREs).
 	Setup func(cc contract.CallContext, txID []byte) error
@@ -58,6 +64,20 @@ type quietT struct{}
 
 func (quietT) Errorf(format string, args ...interface{}) {}
 func (quietT) Logf(format string, args ...any)           {}
+
+type hookPlatform struct {
+	base.Platform
+	hook func(index int32, txID []byte) error
+}
+
+func (p *hookPlatform) OnTransactionEnd(wc state.WorldContext, logger log.Logger, rct txresult.Receipt) error {
+	if ti := wc.TransactionInfo(); ti != nil {
+		if err := p.hook(ti.Index, ti.Hash); err != nil {
+			return err
+		}
+	}
+	return p.Platform.OnTransactionEnd(wc, logger, rct)
+}
 
 type chainWrapper struct {
 	*test.Chain
@@ -209,6 +229,9 @@ func New(cfg Config) (*Stack, error) {
 	s.tchain = tc
 	s.Chain = &chainWrapper{Chain: tc, level: cfg.Concurrency}
 	s.Platform = basic.Platform
+	if cfg.TxEndHook != nil {
+		s.Platform = &hookPlatform{Platform: basic.Platform, hook: cfg.TxEndHook}
+	}
 	test.RegisterTransactionFactory()
 	registerSetupTx()
 	s.CM, err = s.Platform.NewContractManager(s.DB, path.Join(dir, "contract"), tc.Logger())
